@@ -66,6 +66,18 @@ def tokNamed (n : String) (v : Bytes) : Token := ⟨.named n, v⟩
 def tokChar (c : UInt8) : Token := ⟨.char c, []⟩
 def tokEof : Token := ⟨.eof, []⟩
 
+/-- the token names the scanners below spell out (the keyword tokens come from `G.keywords`, the string tokens from
+`G.stringTokenType`); `Props/C14.fact_tok_token_ids` checks that each is a constant of `sql.go` -/
+def modelTokenNames : List String :=
+  ["LEX_ERROR", "ID", "HEX", "BIT_LITERAL", "LIST_ARG", "VALUE_ARG", "FLOAT", "INTEGRAL", "HEXNUM", "DOLLAR_SIGN", "COMMENT",
+   "PG_ESCAPE_STRING", "AND", "OR", "NE", "SHIFT_LEFT", "NULL_SAFE_EQUAL", "LE", "GE", "SHIFT_RIGHT",
+   "JSON_UNQUOTE_EXTRACT_OP", "JSON_EXTRACT_OP"]
+
+/-- a list of numbers is strictly increasing (hence pairwise different) -/
+def strictlyIncreasing : List Nat → Bool
+  | a :: b :: r => a < b && strictlyIncreasing (b :: r)
+  | _ => true
+
 /-- numeric id of a token type as Go returns it (`none`: a name that is not a constant of `sql.go`) -/
 def TokType.id : TokType → Option Nat
   | .eof => some 0
@@ -457,7 +469,7 @@ inductive SRes where
   | tok (t : Token) (rest : Bytes) (posVar : Nat)
   /-- a terminated `/*! … */`: the inner SQL for the nested tokenizer and the suffix left; Go re-enters `Scan` -/
   | special (sql : Bytes) (rest : Bytes)
-deriving Repr
+deriving Repr, DecidableEq
 
 def liftTok (posVar : Nat) : Out (Token × Bytes) → Out SRes
   | .ok (t, r) => .ok (.tok t r posVar)
